@@ -93,6 +93,26 @@ func (*footnoteASTTransformer).Transform
        ifptr(kid(container, j), "*ast.FootnoteBacklink").Index == index)
   loop 3 dec refCount - i
 
+
+// ---- footnotes (C16), parse phase: the number a reference shows is the number of a definition with that label;
+// referenced definitions carry pairwise different numbers between 1 and Count ----
+macro fnCount(L)  = ifptr(L, "*ast.FootnoteList").Count
+macro fnRange(L)  = forall i int {kid(L, i)} :: (0 <= i && i < klen(L)) ==> (isFn(kid(L, i)) && (fnIndex(kid(L, i)) < 0 || (1 <= fnIndex(kid(L, i)) && fnIndex(kid(L, i)) <= fnCount(L))))
+macro fnInj(L)    = forall i int, j int {kid(L, i), kid(L, j)} :: (0 <= i && i < j && j < klen(L) && fnIndex(kid(L, i)) >= 1) ==> fnIndex(kid(L, i)) != fnIndex(kid(L, j))
+macro fnListOK(L) = (typeis(L, "*ast.FootnoteList") && ifptr(L, "*ast.FootnoteList") != nil && fnCount(L) >= 0 && fnRange(L) && fnInj(L))
+func (*footnoteParser).Parse
+  uses nodeModel
+  requires WF() && parent != nil && block != nil && pc != nil
+  requires [listOK] fnList() != nil ==> fnListOK(fnList())
+  requires [inline] parent != fnList()            // references are parsed inside inline containers, never directly in the list
+  callassert [listKeptAt] ast.NewFootnoteLink#1: fnListOK(asnode(list)) && 1 <= index && index <= fnCount(asnode(list))
+  ensures [listKept] old(fnList()) != nil ==> fnListOK(old(fnList()))
+  ensures [number] (result != nil && old(fnList()) != nil) ==> (typeis(result, "*ast.FootnoteLink") && 1 <= ifptr(result, "*ast.FootnoteLink").Index && ifptr(result, "*ast.FootnoteLink").Index <= fnCount(old(fnList())))
+  ensures [noListNoLink] old(fnList()) == nil ==> result == nil
+  loop 0 inv WF() && list != nil && asnode(list) == old(fnList()) && fnListOK(asnode(list)) && index == 0
+  loop 0 inv def == nil || isKidOf(def, asnode(list))
+  loop 0 dec (def == nil ? 0 : klen(asnode(list)) - kidx(def))
+
 // ---- tables (C17): every body row has exactly as many cells as there are columns ----
 // child lists of nodes that existed before a call are untouched by it
 macro oldKept() = (forall p addr {klen(p)} :: int(ifptr(p)) < old(allocbound()) ==> klen(p) == old(klen(p))) &&
